@@ -188,6 +188,11 @@ func fitnessOf(fit, gen, idx, n int, org *genetics.Organism) float64 {
 		return float64(org.Genotype.Extrons() + len(org.Genotype.Nodes))
 	case 7:
 		return float64(n - idx)
+	case 9: // distinct negative values (the library clamps them to one small positive value: all tie after adjustment)
+		if n <= 1 {
+			return -1
+		}
+		return -float64((idx*(n-1)+gen)%n + 1)
 	case 8: // distinct but very close values (a plateau): 1 + k*1e-5
 		if n <= 1 {
 			return 1
